@@ -224,14 +224,9 @@ theorem closestST_kkt {A B C D E : K} (hA : 0 â‰¤ A) (hC : 0 â‰¤ C) (hden : 0 â‰
         have : (A * C - B * B) * 0 + C * D - B * E = 0 := by rw [hcd]; ring
         rw [this]; exact KKT1_zero_zero
       Â· -- general position
-        have hf : firstStage A B C D E = ((B * E - C * D) / (A * C - B * B), (A * E - B * D) / (A * C - B * B)) := by
+        have hf : firstStage A B C D E = ((B * E - C * D) / (A * C - B * B), (B * ((B * E - C * D) / (A * C - B * B)) + E) / C) := by
           simp [firstStage, hd]
-        have ht : (A * E - B * D) / (A * C - B * B) = (B * ((B * E - C * D) / (A * C - B * B)) + E) / C := by
-          have h1 : A * C - B ^ 2 â‰  0 := by rw [pow_two]; exact hd.ne'
-          have h2 := hC'.ne'
-          field_simp
-          ring
-        rw [hf, midStage_pos hC' _ _ ht, finalStage_pos hA']
+        rw [hf, midStage_pos hC' _ _ rfl, finalStage_pos hA']
         apply stage_final hA' hC' hden
         have h2 : KKT1 (clamp01 (-(C * D - B * E) / (A * C - B * B)))
             ((A * C - B * B) * clamp01 (-(C * D - B * E) / (A * C - B * B)) + (C * D - B * E)) := clamp01_kkt hd
